@@ -23,7 +23,7 @@ from fpy2.interpret.byte import BytecodeCompiler
 from fpy2.interpret import get_default_interpreter
 from fpy2.interpret.value import to_value, Foreign
 from fpy2.types import RealType, BoolType, ContextType, TupleType, ListType, VarType, FunctionType
-from fpy2.utils import Unionfind, NamedId
+from fpy2.utils import Unionfind, NamedId, UNINIT
 from fpy2.analysis import (DefineUse, TypeInfer, ArraySizeInfer, ValueClassInfer, PartialEval, Alias, ContextUse, Purity)
 from fpy2.analysis.reaching_defs import AssignDef, PhiDef
 from fpy2.analysis.array_size import ListSize, TupleSize, is_size_eq
@@ -77,15 +77,22 @@ def same_const(reported, observed) -> bool:
     except Exception:
         return False
 
-def shape_ok(v, ty) -> bool:
-    """does the run-time value have the shape of the inferred type?"""
+def shape_ok(v, ty, env=None) -> bool:
+    """does the run-time value have the shape of the inferred type?  A list type may carry a length: a concrete one
+    must be the list's length; a symbolic one must denote ONE length wherever it occurs inside this type."""
+    if env is None: env = {}
+    if v is UNINIT: return True   # a cell of `empty(n)` not yet written: no value to have a shape
     if isinstance(ty, RealType): return isinstance(v, (Float, Fraction)) and not isinstance(v, bool)
     if isinstance(ty, BoolType): return isinstance(v, bool)
     if isinstance(ty, ContextType): return isinstance(v, Context)
     if isinstance(ty, TupleType):
-        return isinstance(v, tuple) and len(v) == len(ty.elts) and all(shape_ok(x, t) for x, t in zip(v, ty.elts))
+        return isinstance(v, tuple) and len(v) == len(ty.elts) and all(shape_ok(x, t, env) for x, t in zip(v, ty.elts))
     if isinstance(ty, ListType):
-        return isinstance(v, list) and all(shape_ok(x, ty.elt) for x in v)
+        if not isinstance(v, list): return False
+        n = getattr(ty, 'length', None)
+        if isinstance(n, int) and not isinstance(n, bool) and len(v) != n: return False
+        if isinstance(n, NamedId) and env.setdefault(n, len(v)) != len(v): return False
+        return all(shape_ok(x, ty.elt, env) for x in v)
     return True   # type variable / function type / unknown: nothing claimed
 
 def show(v, depth=0):
@@ -508,6 +515,8 @@ def classify(analysis, what, fact, observed, tr):
         pe = tr.F.pe
         if pe is not None and any(isinstance(v, list) or (isinstance(v, tuple) and any(isinstance(x, list) for x in v)) for v in pe.by_def.values()):
             return 'C13-F2'   # a list-valued definition kept as a constant across a mutation
+    if analysis == 'TypeInfer' and '][' in str(fact) and captures_lists(tr.F.fn):
+        return 'C13-F8'   # list types that differ only in their length share one union-find entry: a captured list's length leaks
     if analysis == 'Purity':
         if writes_param_directly(tr.F): return None   # a store through the parameter's own name must be seen
         return 'C13-F7'   # a write to the caller's list through another name (alias, row, loop target) is not seen
@@ -518,6 +527,11 @@ def classify(analysis, what, fact, observed, tr):
     if analysis == 'ArraySizeInfer' and has_early_return(tr.F.ast):
         return 'C13-F3'   # an unconditional zip/assert after an early return constrains the inputs globally
     return None
+
+def captures_lists(fn) -> bool:
+    def holds(v): return isinstance(v, list) or (isinstance(v, tuple) and any(holds(x) for x in v))
+    try: return sum(1 for n in fn.ast.free_vars if holds(fn.env[str(n)])) >= 2
+    except Exception: return False
 
 def writes_param_directly(F) -> bool:
     """is there an `xs[i] = e` whose target, followed back through earlier stores and phis, is a parameter or a
@@ -611,23 +625,41 @@ def run_traced(fn, facts, tracer, args, ctx=None, timeout_s=2):
 
 REALS = [1.5, -2.25, 0.1, 3.0, 100.0, -0.0, 0.0, float('inf'), float('-inf'), float('nan'), 1e300, -7.0, 0.3, 2.0 ** -30, 5, 2.0, 1.0, 65520.0, 1e-8]
 
+ARG_CTXS = [fp.FP64, fp.FP32, fp.IEEEContext(5, 16, fp.RM.RNE), fp.MPFloatContext(3, fp.RM.RNE), fp.MPFixedContext(-4, fp.RM.RTZ), fp.REAL]
+
 def ann_kind(t):
     if isinstance(t, A.ListTypeAnn): return ('L', ann_kind(t.elt))
     if isinstance(t, A.TupleTypeAnn): return ('T', [ann_kind(x) for x in t.elts])
     if isinstance(t, A.BoolTypeAnn): return 'B'
+    if isinstance(t, A.ContextTypeAnn): return 'C'
     return 'R'
 
 def gen_value(R, kind, i, ragged=True):
     if kind == 'R': return R.choice(REALS)
     if kind == 'B': return R.random() < 0.5
+    if kind == 'C': return R.choice(ARG_CTXS)
     if kind[0] == 'T': return tuple(gen_value(R, k, i) for k in kind[1])
     n = R.choice([1, 2, 2, 3, 4]) if kind[1] == 'R' else R.choice([2, 2, 3])
     if kind[1] != 'R' and not ragged:
         m = R.choice([1, 2, 3]); return [[R.choice(REALS) for _ in range(m)] for _ in range(n)]
     return [gen_value(R, kind[1], i) for _ in range(n)]
 
+def type_kind(ty):
+    if isinstance(ty, ListType): return ('L', type_kind(ty.elt))
+    if isinstance(ty, TupleType): return ('T', [type_kind(t) for t in ty.elts])
+    if isinstance(ty, BoolType): return 'B'
+    if isinstance(ty, ContextType): return 'C'
+    return 'R'
+
 def gen_args(R, fn, n):
     kinds = [ann_kind(a.type) for a in fn.ast.args]
+    if any(isinstance(a.type, A.AnyTypeAnn) for a in fn.ast.args):
+        # an unannotated (or `fp.Context`) parameter: take its kind from the inferred signature
+        try:
+            tys = TypeInfer.check(fn.ast).arg_types
+            kinds = [type_kind(t) if isinstance(a.type, A.AnyTypeAnn) else k for a, t, k in zip(fn.ast.args, tys, kinds)]
+        except Exception:
+            pass
     out = []
     for i in range(n if kinds else 2 * n):
         rag = R.random() < 0.5
@@ -1084,7 +1116,55 @@ def refine_sweep(rep, R, tmp, tier):
         trace_function(rep, R, getattr(mod, n), refine_program(n, c, f), f'refine:{n}:{f}', 0, inputs=inputs, call_ctxs=[None])
     rep.count('refine-sweep-programs', len(progs))
 
+COVERED_FILES = ['reaching_defs', 'define_use', 'partial_eval', 'type_infer', 'array_size', 'value_class', 'alias', 'purity', 'live_vars', 'context_use']
+
+def coverage_summary(cov):
+    """what the run executed of the analyses under monitoring: per file line/branch percentages, the functions never
+    entered and the `case` arms never taken"""
+    import json as _json, ast as _ast
+    out = {}
+    fd, tmpf = tempfile.mkstemp(suffix='.json', dir='/var/tmp'); os.close(fd)
+    try:
+        cov.json_report(outfile=tmpf, ignore_errors=True)
+        data = _json.load(open(tmpf))
+    finally:
+        os.remove(tmpf)
+    tot_s = tot_c = tot_b = tot_cb = 0
+    for path, f in sorted(data.get('files', {}).items()):
+        name = os.path.basename(path)[:-3]
+        sm = f['summary']
+        missing = set(f.get('missing_lines', []))
+        src = open(path).read(); lines = src.splitlines()
+        never, arms = [], []
+        for node in _ast.walk(_ast.parse(src)):
+            if isinstance(node, (_ast.FunctionDef,)):
+                body = [n.lineno for n in node.body if not (isinstance(n, _ast.Expr) and isinstance(getattr(n, 'value', None), _ast.Constant))]
+                if body and all(l in missing for l in body): never.append(node.name)
+            if isinstance(node, _ast.match_case):
+                if node.body and node.body[0].lineno in missing:
+                    arms.append(f'{node.pattern.lineno}: ' + lines[node.pattern.lineno - 1].strip()[:70])
+        out[name] = {'lines_pct': round(100.0 * sm['covered_lines'] / max(sm['num_statements'], 1), 1),
+                     'branches_pct': round(100.0 * sm.get('covered_branches', 0) / max(sm.get('num_branches', 0), 1), 1),
+                     'functions_never_run': sorted(set(never)), 'case_arms_never_taken': arms}
+        tot_s += sm['num_statements']; tot_c += sm['covered_lines']; tot_b += sm.get('num_branches', 0); tot_cb += sm.get('covered_branches', 0)
+    out['TOTAL'] = {'lines_pct': round(100.0 * tot_c / max(tot_s, 1), 1), 'branches_pct': round(100.0 * tot_cb / max(tot_b, 1), 1)}
+    return out
+
 def run(rep, tier, seed):
+    cov = None
+    if os.environ.get('C13_COVERAGE'):
+        import coverage
+        cov = coverage.Coverage(branch=True, data_file=None, include=[os.path.join(os.path.dirname(fp.__file__), 'analysis', f + '.py') for f in COVERED_FILES])
+        cov.start()
+    try:
+        _run(rep, tier, seed)
+    finally:
+        if cov is not None:
+            cov.stop()
+            try: rep.cov['analysis_coverage'] = coverage_summary(cov)
+            except Exception as e: rep.notes.append(f'coverage summary failed: {type(e).__name__}: {e}')
+
+def _run(rep, tier, seed):
     R = Prng(seed, 'C13')
     quick = tier == 'quick'
     tmp = tempfile.mkdtemp(prefix='fpyverif_c13_', dir='/var/tmp')
